@@ -102,6 +102,15 @@ Section Source.
     gen_angle_term NN fsin pi_ l = fsin ((n2 * pi_) / nofZ (Z.of_nat (List.length l))).
   Proof. reflexivity. Qed.
 
+  (* the enclosing radius: the largest term, folded from f64::MIN with f64::max *)
+  Theorem poly_radius_is_source : forall fmin_ l,
+    poly_radius NN fmin_ l = fold_left (fun acc p => nmax acc (gen_poly_radius_term NN p)) l fmin_.
+  Proof. reflexivity. Qed.
+
+  Theorem mol_radius_is_source : forall fmin_ l,
+    mol_radius NN fmin_ l = fold_left (fun acc p => nmax acc (gen_mol_radius_term NN p)) l fmin_.
+  Proof. reflexivity. Qed.
+
   (* ---- src/shape/molecular_shape2.rs *)
   Theorem mol_trimer_is_source : forall fsin fcos pi_ radius angle distance,
     gen_mol_trimer NN fsin fcos pi_ radius angle distance = mol_trimer NN pi_ fsin fcos radius angle distance.
